@@ -152,9 +152,14 @@ def takeover (o : LlcOpts) (r : Pax) : LlcHeld :=
     sendLsc := match r.opt with | none => 0 | some x => x % 4
     dpc := if o.sec then (match r.opt with | none => 0 | some x => (x / 4) % 2) else 0 }
 
-/-- second half of `llc.activate`: `none` when the general bytes are not LLCP -/
+/-- second half of `llc.activate`: `none` (activate returns False, `cfg` untouched) when the general
+bytes are not LLCP or when the peer's parameter list is malformed
+(`except pdu.DecodeError: return False`); any other exception would propagate -/
 def llcLink (o : LlcOpts) (gb : Bytes) : Py (Option LlcHeld) :=
-  if gbAccepted gb then decodeTlvs (gb.drop 3) >>= fun r => .ok (some (takeover o r))
+  if gbAccepted gb then
+    match decodeTlvs (gb.drop 3) with
+    | .ok r => .ok (some (takeover o r))
+    | .error e => if e = .decodeError then .ok none else .error e
   else .ok none
 
 /-! ## NFC-DEP activation -/
